@@ -251,7 +251,8 @@ def restart_specs(draw, nrest):
             ncomp=draw(st.sampled_from([2, 3, 12])) if layout == "comp" else 1,
             m0=draw(st.integers(0, 5)) == 0,
             checkpoints=chk,
-            chk_nproc=draw(st.sampled_from([0, 0, 2]))))
+            chk_nproc=draw(st.sampled_from([0, 0, 2])),
+            decoys=draw(st.booleans())))
     return specs
 
 
@@ -260,15 +261,23 @@ def history_case(draw):
     nrest = draw(st.integers(1, 4))
     ops = draw(st.lists(st.one_of(
         st.just(["add"]),
-        st.tuples(st.just("iterations"), st.booleans()).map(list),
-        st.tuples(st.just("iterations"), st.booleans()).map(list),
+        st.tuples(st.just("iterations"), st.booleans(),
+                  st.booleans()).map(list),
+        st.tuples(st.just("iterations"), st.booleans(),
+                  st.just(False)).map(list),
         st.tuples(st.just("read_iterations"), st.booleans()).map(list),
         st.tuples(st.just("get_content"), st.integers(0, 3),
                   st.booleans()).map(list),
         st.just(["grow"])), min_size=2, max_size=10))
+    steps = draw(st.lists(st.sampled_from([1, 1, 1, 1, 2, 5]),
+                          min_size=nrest, max_size=nrest))
+    ids = [sum(steps[1:i + 1]) for i in range(nrest)]   # gaps in numbering
+    first = draw(st.sampled_from([0, 0, 0, 0, 1, 12]))
     return dict(sim=draw(fmt_name()),
                 loc=draw(st.lists(fmt_name(2), max_size=2)),
                 restarts=draw(restart_specs(nrest)),
+                ids=[first + i for i in ids],
+                simfactory=draw(st.booleans()),
                 initial=draw(st.integers(1, nrest)), ops=ops)
 
 
@@ -338,7 +347,9 @@ class Hist:
         self.param = dict(simpath=self.simloc, simname=self.sim,
                           simulation="ET")
         self.pool = [json.loads(json.dumps(s)) for s in case["restarts"]]
-        self.cur = []          # current spec per restart on disk
+        self.ids = [int(i) for i in case.get("ids",
+                                             range(len(self.pool)))]
+        self.cur = {}          # restart number -> current spec (on disk)
         self.cache = {}        # r -> content truth at caching time
         self.cat = {}          # r -> per-restart truth at cataloguing time
         self.file_exists = False
@@ -350,26 +361,42 @@ class Hist:
         # depend on (keeps independent root causes in separate buckets)
         self.tag_path = ("[path~restart]"
                          if "restart" in self.simloc + self.sim else "")
-        self.tag = ("[substr-var]" if any(substr_var(s) for s in self.pool)
-                    else "")
+        self.tag = ""          # (value comparisons are tagged per restart)
+
+    def vtag(self, r):
+        return "[substr-var]" if substr_var(self.cur[r]) else ""
 
     def rtag(self, exc):
-        return self.tag_path if isinstance(exc, IndexError) else self.tag
+        if isinstance(exc, IndexError):
+            return self.tag_path
+        return ("[substr-var]" if any(substr_var(s)
+                                      for s in self.cur.values()) else "")
+
+    def present(self):
+        return sorted(self.cur)
 
     # -- directory ---------------------------------------------------------
     def add(self):
         if len(self.cur) >= len(self.pool):
             return False
-        r = len(self.cur)
-        spec = self.pool[r]
-        if r == 0:
-            sd.write_par(self.simloc, self.sim, 0, sd.MINIMAL_PAR)
+        r = self.ids[len(self.cur)]
+        spec = self.pool[len(self.cur)]
+        if not self.cur:
+            sd.write_par(self.simloc, self.sim, r, sd.MINIMAL_PAR)
         sd.write_restart(self.simloc, self.sim, r, spec)
-        self.cur.append(spec)
+        self.cur[r] = spec
+        if self.case.get("simfactory"):
+            # what simfactory keeps next to the restarts
+            top = self.simloc + self.sim + "/"
+            os.makedirs(top + "SIMFACTORY/par", exist_ok=True)
+            for old in os.listdir(top):
+                if old.endswith("-active"):
+                    os.remove(top + old)
+            os.symlink(f"output-{r:04d}", top + f"output-{r:04d}-active")
         return True
 
     def grow(self):
-        r = len(self.cur) - 1
+        r = self.present()[-1]
         spec = self.cur[r]
         if not spec["files"]:
             return False
@@ -377,7 +404,7 @@ class Hist:
         f = dict(thorn="GROWN", name=f"grown{self.grown}", group=False,
                  vars=[f"grown{self.grown}"], xyz="")
         sd.write_restart(self.simloc, self.sim, r,
-                         dict(spec, files=[f], checkpoints=[]))
+                         dict(spec, files=[f], checkpoints=[], decoys=False))
         spec["files"] = spec["files"] + [f]
         return True
 
@@ -403,7 +430,7 @@ class Hist:
                       dict(present="overall" in g, want=with_overall))
         for r in want_set:
             if r in g:
-                cmp_restart(g[r], self.cat[r], where, tag, note)
+                cmp_restart(g[r], self.cat[r], where, self.vtag(r), note)
         return g
 
     def check_overall(self, got):
@@ -424,10 +451,10 @@ class Hist:
                            dict(got=got["overall"], want=ref["overall"]))
 
     def fresh_scan(self, got, catalogued):
-        n = len(self.cur)
-        if catalogued == set(range(n)):
+        pres = self.present()
+        if catalogued == set(pres):
             skip = False
-        elif catalogued == set(range(n - 1)):
+        elif catalogued == set(pres[:-1]):
             skip = True
         else:
             return
@@ -440,9 +467,10 @@ class Hist:
         try:
             loc2 = root2 + "/" + "".join(p + "/" for p in self.case["loc"])
             os.makedirs(loc2, exist_ok=True)
-            shutil.copytree(self.simloc + self.sim, loc2 + self.sim)
+            shutil.copytree(self.simloc + self.sim, loc2 + self.sim,
+                            symlinks=True)
             os.remove(loc2 + self.sim + "/iterations.txt")
-            for r in range(n):
+            for r in pres:
                 c = sd.restart_path(loc2, self.sim, r) + "content.txt"
                 if os.path.exists(c):
                     os.remove(c)
@@ -478,8 +506,8 @@ class Hist:
     def catalogue_new(self, skip_last):
         """model of one iterations() call; returns expected restart set or
         None when 'Nothing to process' must be raised."""
-        n = len(self.cur)
-        target = set(range(n - 1 if skip_last else n))
+        pres = self.present()
+        target = set(pres[:-1] if skip_last else pres)
         new = sorted(target - set(self.cat))
         self.file_exists = True
         if not new and not self.cat:
@@ -490,7 +518,7 @@ class Hist:
             self.cat[r] = restart_truth(self.cur[r], self.cache[r])
         return set(self.cat)
 
-    def op_iterations(self, skip_last, via_read=False):
+    def op_iterations(self, skip_last, via_read=False, verbose=False):
         """returns False when the history has to stop."""
         note, tag = self.note, self.tag
         self.ncat_calls += 1
@@ -504,7 +532,7 @@ class Hist:
                 if via_read:
                     return R.read_iterations(self.param, skip_last=skip_last)
                 return R.iterations(self.param, skip_last=skip_last,
-                                    verbose=False)
+                                    verbose=verbose)
         try:
             got = call()
         except ImportError as e:
@@ -590,7 +618,7 @@ class Hist:
 
     def op_get_content(self, ridx, overwrite):
         note, tag = self.note, self.tag
-        r = ridx % len(self.cur)
+        r = self.present()[ridx % len(self.cur)]
         if overwrite or r not in self.cache:
             self.cache[r] = self.content_now(r)
         want = self.cache[r]
@@ -640,8 +668,10 @@ def test_history(case, note):
                 note.cls("layout:components")
             if any(len(v) == 1 for v in s["levels"].values()):
                 note.cls("level:singleton")
-        if h.tag:
+        if any(substr_var(s) for s in h.pool):
             note.cls("substr-var")
+        if h.ids != list(range(len(h.ids))):
+            note.cls("restart-numbering:gaps")
         for op in case["ops"]:
             name = op[0]
             if name == "add":
@@ -654,7 +684,8 @@ def test_history(case, note):
                     note.cls("op:grow")
             elif name == "iterations":
                 note.cls("op:iterations")
-                ok = h.op_iterations(bool(op[1]))
+                ok = h.op_iterations(bool(op[1]),
+                                     verbose=len(op) > 2 and bool(op[2]))
             elif name == "read_iterations":
                 note.cls("op:read_iterations")
                 ok = h.op_read_iterations(bool(op[1]))
@@ -710,7 +741,11 @@ def generic_history(sim, loc):
            ["get_content", 2, False], ["get_content", 2, True],
            ["read_iterations", True], ["add"], ["iterations", True],
            ["get_content", 1, True], ["iterations", False]]
-    return dict(sim=sim, loc=loc, restarts=rs, initial=2, ops=ops)
+    for r in rs:
+        r["decoys"] = True
+    ops[7] = ["iterations", False, True]
+    return dict(sim=sim, loc=loc, restarts=rs, ids=[0, 1, 3, 12],
+                simfactory=True, initial=2, ops=ops)
 
 
 # ---------------------------------------------------------------------------
